@@ -35,12 +35,12 @@ def _progs_for(prop, tier, seed):
     if prop == "C01":
         progs = gen.c01_curated() + gen.random_programs(1000 + seed, 10, max_arity=2, max_body=2)
         if not q:
-            progs += gen.random_programs(1500 + seed, 40, prefix="rndb", max_arity=2, max_body=3)
-            progs += gen.random_programs(1700 + seed, 10, prefix="rndc", max_arity=3, max_body=2)
+            progs += gen.random_programs(1500 + seed, 120, prefix="rndb", max_arity=2, max_body=3)
+            progs += gen.random_programs(1700 + seed, 20, prefix="rndc", max_arity=3, max_body=2)
         add(progs, "run", ["mismatch", "nonterm", "panic"])
         if not q:
             # a larger universe (4 constants per column) for the binary-relation programs
-            big = [p for p in gen.c01_curated() if p.name in ("tc", "tc_linear", "tc_reverse", "same_gen", "mutual2", "join_cond2", "two_strata", "binder_before_join")]
+            big = [p for p in gen.c01_curated() if p.name in ("tc", "tc_linear", "tc_reverse", "same_gen", "mutual2", "two_strata", "join_repeat_second")]
             for p in big:
                 p.name += "__d4"
             add(big, "run", ["mismatch", "nonterm", "panic"], D=4)
@@ -49,9 +49,9 @@ def _progs_for(prop, tier, seed):
         add(progs, "run", ["duplicate", "mismatch", "nonterm", "panic"], dup=True)
         add(gen.c03_curated(), "run", ["duplicate", "nonterm", "panic"])
     elif prop == "C03":
-        add(gen.c03_curated(), "run", ["mismatch", "duplicate", "nonterm", "panic"])
+        add(gen.c03_curated() + gen.random_lattice_programs(3000 + seed, 4 if q else 40), "run", ["mismatch", "duplicate", "nonterm", "panic"])
     elif prop == "C04":
-        add(gen.c04_curated(), "run", ["mismatch", "nonterm", "panic"])
+        add(gen.c04_curated() + gen.random_agg_programs(4000 + seed, 6 if q else 80), "run", ["mismatch", "nonterm", "panic"])
         # dedicated queries with caller-duplicated input tuples (each distinct tuple must still be aggregated once)
         dupp = [p for p in gen.c04_curated() if p.name in ("agg_count_key", "agg_sum_min_max", "agg_global")]
         for p in dupp:
@@ -64,7 +64,9 @@ def _progs_for(prop, tier, seed):
     elif prop == "C08":
         add(gen.c08_curated(), "run", ["mismatch", "nonterm", "panic"])
     elif prop == "C09":
-        add(gen.c09_variants(), "run", ["mismatch", "nonterm", "panic"])
+        vs = gen.c09_variants()
+        add([p for p in vs if getattr(p, "scenario", "run") == "run"], "run", ["mismatch", "nonterm", "panic"])
+        add([p for p in vs if getattr(p, "scenario", "run") == "timeout"], "timeout", ["mismatch", "nonterm", "panic"])
     elif prop == "C13":
         base = gen.c01_curated() + gen.c03_curated() + gen.c04_curated()
         add(base, "rerun", ["mismatch", "nonterm", "panic"])
@@ -119,7 +121,7 @@ _WORK = {}
 
 def _worker(args):
     """runs in a pool process: one (program, scenario) job"""
-    corpus_dir, pname, jidx, tier, prop, seed = args
+    corpus_dir, pname, jidx, tier, prop, seed = args[:6]
     import random as _r
     from symx import corpus as Cp, driver as Dr, scenario as Sc, checker as Ck
     from symx.values import Unsupported
@@ -214,6 +216,13 @@ def check(prop, tier, only=None):
         C.write_evidence(prop, tier, LEVEL, cov, ASSUME, time.time() - t0)
         return C.finish(prop, [], [], inconclusive)
     results = {}
+    if cp.dropped:
+        # programs of the corpus that no longer compile: reported, the rest is still decided
+        for i in list(keep):
+            nm = jobs[i]["prog"].name
+            if nm in cp.dropped:
+                keep.remove(i)
+                inconclusive.append("%s: the generated code of this (well-formed) corpus program does not compile: %s" % (nm, cp.dropped[nm][:300]))
     workers = min(14, max(1, len(keep)))
     with ProcessPoolExecutor(max_workers=workers) as ex:
         futs = [ex.submit(_worker, (cp.dir, jobs[i]["prog"].name, i, tier, prop, seed)) for i in keep]
